@@ -3,12 +3,15 @@ import Octave.Lemmas.ParserFuelMutual
 namespace Octave
 namespace Parser
 
+-- the proofs below execute every path of large `do` blocks symbolically: 5× the default budget, so that no proof
+-- sits at the edge of the deterministic timeout
+set_option maxHeartbeats 1000000
+
 theorem fs_identifier : fs .identifier = 1 := rfl
 theorem fs_flow : fs .flow = 1 := rfl
 theorem fs_variable : fs .variable = 1 := rfl
 
 
-set_option maxHeartbeats 4000000 in
 theorem parseValue_step {n : Nat} (ihN : SpecN n) (ihP : SpecP n) (ihA : SpecA n) (ihL : SpecL n) : SpecV (n + 1) := by
   unfold SpecV SpecN SpecP SpecA SpecL at *
   intro r h
